@@ -362,7 +362,7 @@ class Model:
         if not c and rel:
             c = self.find_fns(name, None, impl)  # moved to another file
         if len(c) == 1:
-            return c[0]
+            return self._behind_wrapper(c[0])
         if not c:
             raise AnalysisIncomplete(f"anchor function `{name}`{' in ' + rel if rel else ''} not found ({role or 'no role note'})")
         if rel:
@@ -370,6 +370,33 @@ class Model:
             if len(c2) == 1:
                 return c2[0]
         raise AnalysisIncomplete(f"anchor function `{name}` is ambiguous: {c}")
+
+    def _behind_wrapper(self, f, hops=2):
+        """an anchor that has become a thin wrapper (`pub fn link_cores(cores) { link_cores_with_entry(cores, &EntryPoint::default()) }`:
+        its whole body is one call of a same-file function that is handed every parameter) is the function it delegates to"""
+        for _ in range(hops):
+            b = f.body
+            if b is None or len(b.get("stmts", [])) != 1:
+                return f
+            e = b["stmts"][0]
+            e = e.get("expr") if e["k"] == "ExprStmt" else None
+            while e is not None and e["k"] in ("Try", "Paren", "Return"):
+                e = e.get("expr")
+            if e is None or e["k"] not in ("Call", "MethodCall"):
+                return f
+            if e["k"] == "MethodCall" and not is_path(e["recv"], "self") and not is_path(e["recv"], "Self"):
+                return f
+            cands = [g for g in self.fns(f.file) if g.name == callee_name(e) and g is not f and g.body is not None and not g.test]
+            if len(cands) != 1:
+                return f
+            params = [p["pat"]["name"] for p in f.params() if not p["self"] and p["pat"]["k"] == "PIdent"]
+            handed = set()
+            for a in e["args"]:
+                handed |= idents(a)
+            if not params or not set(params) <= handed:
+                return f
+            f = cands[0]
+        return f
 
     def scope_fns(self, f, depth=1, callbacks=False):
         """f and the helper functions of the same file it calls directly (a long function split into private helpers keeps its
